@@ -1214,7 +1214,7 @@ class BufferedWriter(IndexWriter):
 
         # Start timer
         if self.period:
-            self.timer = threading.Timer(self.period, self.commit)
+            self.timer = threading.Timer(self.period, self._timed_commit)
             self.timer.start()
 
     def __exit__(self, exc_type, exc_val, exc_tb):
@@ -1256,6 +1256,13 @@ class BufferedWriter(IndexWriter):
     def close(self):
         self.commit(restart=False)
 
+    def _timed_commit(self):
+        # Called by the flush timer. A timer that fired just before close()
+        # gets the lock only after the writer has been closed: nothing to do
+        with self.lock:
+            if not self.writer.is_closed:
+                self.commit()
+
     def commit(self, restart=True):
         # The whole flush happens under the lock: documents added by another
         # thread (or a flush fired by the timer) while the buffer is being
@@ -1275,7 +1282,7 @@ class BufferedWriter(IndexWriter):
             if restart:
                 self.writer = self.index.writer(**self.writerargs)
                 if self.period:
-                    self.timer = threading.Timer(self.period, self.commit)
+                    self.timer = threading.Timer(self.period, self._timed_commit)
                     self.timer.start()
 
     def add_reader(self, reader):
